@@ -298,7 +298,7 @@ fn kinds_line() {
 
 // @verif property=C14,C06,C01 tier=quick timeout=1800 mem=24 bounds="line '$a,$b,$c,$d,0,$f' with the type EVERY i32 (kind precedence circle>slider>spinner>hold, unknown kinds), end time every f64 / error; arbitrary predecessor"
 oracle_proof!(c14_kinds, 32, kinds_line());
-// @verif property=C14,C06,C01 tier=quick timeout=1800 mem=24 bounds="circle line with extras '$a,$b,$c,$d,10,$f:$g:$h:$i:' (hit sound 10 = whistle+clap; banks, custom index, volume every i32 / error)" covers=5
+// @verif property=C14,C06,C01 tier=thorough timeout=1800 mem=24 bounds="circle line with extras '$a,$b,$c,$d,10,$f:$g:$h:$i:' (hit sound 10 = whistle+clap; banks, custom index, volume every i32 / error)" covers=5
 oracle_proof!(c14_circle_extras_sound10, 40, circle_line(true, Some(10), "$a,$b,$c,$d,10,$f:$g:$h:$i:"));
 
 // ------------------------------------------------------------------------------------------
